@@ -16,7 +16,7 @@ META = {
             "C03_spins_while_send_never_completes / C03_spins_if_never_quiet / C03_spins_if_callback_reregisters showing each hypothesis is needed. DEADLOCK FREEDOM AND TERMINATION OF THE PROTOCOL LOGIC on the executable models real histories are replayed through: "
             "C01_never_stuck / C01_every_drain_settles (message movement: an enabled step exists until everything issued has executed, every async-free continuation is bounded, NONE/NR/NLNR under every placement), "
             "C02ME_never_stuck / C02ME_waiting_rank_is_served / C02ME_rounds_after_quiescence / C02ME_exit_bounded / C02ME_all_exit (after quiescence every rank leaves the barrier within two further rounds, <= n(2K+6) steps), "
-            "C01_history_bounded (every history has at most (6H+7) x #asyncs steps: finitely many messages => finitely many movement steps; 25 x #asyncs for the real router), C03_wait_until_served (local_wait_until: a message a peer issued and flushed is executed by the waiting rank's own polling steps alone, within `total` steps), C03_joint_never_stuck / C03_joint_quiescent_barrier_ends on the product Deliver x BarrierME (the two sides never block each other). What remains an environment hypothesis: the loops keep polling and MPI completes matched operations. Explored: seeded "
+            "C01_history_bounded (every history has at most (6H+7) x #asyncs steps: finitely many messages => finitely many movement steps; 25 x #asyncs for the real router), C03_wait_until_served (local_wait_until: a message a peer issued and flushed is executed by the waiting rank's own polling steps alone, within `total` steps), C03_joint_never_stuck / C03_joint_quiescent_barrier_ends / C03_message_work_bounded (only the barrier's polling rounds can repeat: message-side steps are bounded by an explicit measure) on the product Deliver x BarrierME (the two sides never block each other). What remains an environment hypothesis: the loops keep polling and MPI completes matched operations. Explored: seeded "
             "message DAGs with handler-side sends / local_progress / local_wait_until over all env configurations (capacity 0.., 1..8 irecvs, isends_wait 0.., issend 0/1/8), "
             "layouts, routings and scheduling policies incl. always-rendezvous; any abort/deadlock/livelock is a concrete failing schedule (replayable by seed).",
     "note": "Termination under every fair schedule depends on MPI's progress rules, which are modelled by simmpi, not verified; schedules are sampled; handlers whose spawn "
